@@ -297,6 +297,8 @@ impl Aux {
 // Rio's model for the strictly representable, quoted-triple-free part of a graph
 fn rio_lit<'a>(t: &'a ST) -> Option<rm::Literal<'a>> {
     match t {
+        // (Trusted's contract: a datatype is an IRI; a relative reference there is not something Rio's model can hold)
+        SimpleTerm::LiteralDatatype(_, d) if !has_scheme(d.as_str()) => None,
         SimpleTerm::LiteralDatatype(l, d) => Some(if d.as_str() == format!("{XSD}string") { rm::Literal::Simple { value: l } } else { rm::Literal::Typed { value: l, datatype: rm::NamedNode { iri: d.as_str() } } }),
         SimpleTerm::LiteralLanguage(l, tag) => Some(rm::Literal::LanguageTaggedString { value: l, language: tag.as_str() }), _ => None }
 }
@@ -471,7 +473,7 @@ fn rebuild<T: Term>(t: T) -> Option<ST> {
         TermKind::Triple => { let [s, p, o] = t.triple()?; triple(rebuild(s)?, rebuild(p)?, rebuild(o)?) }
     })
 }
-fn parser_paths(doc: &str, p0: &Result<Vec<T3>, String>, salt: usize) -> Vec<String> {
+fn parser_paths(doc: &str, p0: &Result<Vec<T3>, String>, salt: usize, nb: bool) -> Vec<String> {
     let mut fails = vec![];
     let mut cmp = |name: &str, r: Result<Vec<T3>, String>, as_set: bool| {
         let same = match (p0, &r) { (Ok(a), Ok(b)) => if as_set { set_key(a) == set_key(b) } else { exact(a, b) }, (Err(_), Err(_)) => true, _ => false };
@@ -481,7 +483,8 @@ fn parser_paths(doc: &str, p0: &Result<Vec<T3>, String>, salt: usize) -> Vec<Str
     cmp("parse_bufread(bytes)", q(&mut || sophia_xml::parser::parse_bufread(doc.as_bytes()).collect_triples::<Vec<T3>>().map_err(|e| e.to_string())), false);
     cmp("RdfXmlParser::default().parse_str", q(&mut || RdfXmlParser::default().parse_str(doc).collect_triples::<Vec<T3>>().map_err(|e| e.to_string())), false);
     cmp("RdfXmlParser { base: None }.parse(BufReader of capacity 3)", q(&mut || RdfXmlParser { base: None }.parse(io::BufReader::with_capacity(3 + salt % 5, doc.as_bytes())).collect_triples::<Vec<T3>>().map_err(|e| e.to_string())), false);
-    cmp("RdfXmlParser { base: Some(..) }.parse_str (absolute IRIs only)", q(&mut || RdfXmlParser { base: Some(Iri::new_unchecked("http://base.example/dir/file?q#f".to_string())) }.parse_str(doc).collect_triples::<Vec<T3>>().map_err(|e| e.to_string())), false);
+    // (a document with relative references reads differently under a base: judged against the resolved graph by the caller)
+    if !nb { cmp("RdfXmlParser { base: Some(..) }.parse_str (absolute IRIs only)", q(&mut || RdfXmlParser { base: Some(Iri::new_unchecked("http://base.example/dir/file?q#f".to_string())) }.parse_str(doc).collect_triples::<Vec<T3>>().map_err(|e| e.to_string())), false); }
     cmp("collect_triples::<FastGraph>", q(&mut || sophia_xml::parser::parse_str(doc).collect_triples::<FastGraph>().map(|g| listing(&g)).map_err(|e| e.to_string())), true);
     cmp("collect_triples::<LightGraph>", q(&mut || sophia_xml::parser::parse_str(doc).collect_triples::<LightGraph>().map(|g| listing(&g)).map_err(|e| e.to_string())), true);
     cmp("collect_triples::<HashSet<[SimpleTerm; 3]>>", q(&mut || sophia_xml::parser::parse_str(doc).collect_triples::<HashSet<T3>>().map(|g| listing(&g)).map_err(|e| e.to_string())), true);
@@ -533,7 +536,7 @@ fn c_optstr(r: &Option<String>) -> String { match r { Some(s) => format!("(Some 
 // generation
 // ---------------------------------------------------------------------------------------------
 #[derive(Clone, Copy, PartialEq, Debug)]
-enum Flavour { Clean, WsOnly, BnodeDigit, ReservedPred, NoSplitPred, IllegalChar, Cr, BadLang, Generalised, Quoted }
+enum Flavour { Clean, WsOnly, BnodeDigit, ReservedPred, NoSplitPred, IllegalChar, Cr, BadLang, Generalised, Quoted, IriShapes, Relative }
 const SUBJECTS: [&str; 7] = ["http://e/s", "http://e/s?a=1&b='2'", "http://example.org/ns#x", "urn:x:y", "http://e/\u{e9}", "http://e/\u{1F600}/p", "http://e/t"];
 const BNODES: [&str; 11] = ["b", "b1", "a-b", "b.c", "_x", "__x", "_1", "_0a", "\u{e9}t", "riog00000001", "\u{10000}a"];
 const BAD_BNODES: [&str; 4] = ["0", "0a", "1.2", "9_"];
@@ -570,21 +573,211 @@ fn gen_lit(r: &mut Rng) -> ST {
 }
 fn gen_obj(r: &mut Rng) -> ST { if r.chance(3, 5) { gen_lit(r) } else { gen_node(r) } }
 
+// ---------------------------------------------------------------------------------------------
+// IRIs of every RFC 3986 / RFC 3987 SHAPE: scheme ":" hier-part [ "?" query ] [ "#" fragment ] built from its
+// components (every kind of scheme, authority, path, query, fragment), and relative references of every kind
+// (network-path, absolute-path, path-noscheme with and without dot segments, empty path, query / fragment only).
+// Written from the RFCs, independently of sophia_iri, oxiri and the Coq grammar (C09/Rfc3987.v), which all get
+// compared with it.
+// ---------------------------------------------------------------------------------------------
+#[derive(Clone, Debug, Default, PartialEq)]
+struct Parts { scheme: Option<String>, auth: Option<String>, path: String, query: Option<String>, frag: Option<String> }
+impl Parts {
+    /// RFC 3986 5.3
+    fn text(&self) -> String {
+        let mut s = String::new();
+        if let Some(x) = &self.scheme { s.push_str(x); s.push(':'); }
+        if let Some(x) = &self.auth { s.push_str("//"); s.push_str(x); }
+        s.push_str(&self.path);
+        if let Some(x) = &self.query { s.push('?'); s.push_str(x); }
+        if let Some(x) = &self.frag { s.push('#'); s.push_str(x); }
+        s
+    }
+}
+/// RFC 3986 3.1: scheme = ALPHA *( ALPHA / DIGIT / "+" / "-" / "." )
+fn is_scheme(s: &str) -> bool { let mut it = s.chars(); matches!(it.next(), Some(c) if c.is_ascii_alphabetic()) && it.all(|c| c.is_ascii_alphanumeric() || matches!(c, '+' | '-' | '.')) }
+/// RFC 3986 appendix B (with the scheme of 3.1)
+fn split_ref(s: &str) -> Parts {
+    let (s1, frag) = match s.split_once('#') { Some((a, f)) => (a, Some(f.to_string())), None => (s, None) };
+    let (s2, query) = match s1.split_once('?') { Some((a, q)) => (a, Some(q.to_string())), None => (s1, None) };
+    let (scheme, s3) = match s2.split_once(':') { Some((a, rest)) if is_scheme(a) => (Some(a.to_string()), rest), _ => (None, s2) };
+    let (auth, path) = match s3.strip_prefix("//") { Some(r) => { let e = r.find('/').unwrap_or(r.len()); (Some(r[..e].to_string()), r[e..].to_string()) } None => (None, s3.to_string()) };
+    Parts { scheme, auth, path, query, frag }
+}
+fn has_scheme(s: &str) -> bool { split_ref(s).scheme.is_some() }
+/// RFC 3986 5.2.4, the string algorithm as written
+fn remove_dot_segments(path: &str) -> String {
+    let mut inp = path.to_string(); let mut out = String::new();
+    let pop = |out: &mut String| { match out.rfind('/') { Some(i) => out.truncate(i), None => out.clear() } };
+    while !inp.is_empty() {
+        if let Some(r) = inp.strip_prefix("../") { inp = r.to_string(); }
+        else if let Some(r) = inp.strip_prefix("./") { inp = r.to_string(); }
+        else if let Some(r) = inp.strip_prefix("/./") { inp = format!("/{r}"); }
+        else if inp == "/." { inp = "/".into(); }
+        else if let Some(r) = inp.strip_prefix("/../") { inp = format!("/{r}"); pop(&mut out); }
+        else if inp == "/.." { inp = "/".into(); pop(&mut out); }
+        else if inp == "." || inp == ".." { inp.clear(); }
+        else { let start = if inp.starts_with('/') { 1 } else { 0 }; let e = inp[start..].find('/').map_or(inp.len(), |i| i + start); out.push_str(&inp[..e]); inp = inp[e..].to_string(); }
+    }
+    out
+}
+/// RFC 3986 5.2.2 (strict) with 5.2.3
+fn rfc_resolve(base: &str, r: &str) -> String {
+    let b = split_ref(base); let r = split_ref(r);
+    let t = if r.scheme.is_some() { Parts { path: remove_dot_segments(&r.path), ..r } }
+        else if r.auth.is_some() { Parts { scheme: b.scheme, path: remove_dot_segments(&r.path), ..r } }
+        else if r.path.is_empty() { Parts { scheme: b.scheme, auth: b.auth, path: b.path, query: r.query.or(b.query), frag: r.frag } }
+        else if r.path.starts_with('/') { Parts { scheme: b.scheme, auth: b.auth, path: remove_dot_segments(&r.path), query: r.query, frag: r.frag } }
+        else { let merged = if b.auth.is_some() && b.path.is_empty() { format!("/{}", r.path) } else { match b.path.rfind('/') { Some(i) => format!("{}{}", &b.path[..=i], r.path), None => r.path.clone() } };
+            Parts { scheme: b.scheme, auth: b.auth, path: remove_dot_segments(&merged), query: r.query, frag: r.frag } };
+    t.text()
+}
+/// what reading `i` from rdf:about / rdf:resource / rdf:datatype under `base` must give: an IRI is itself (character
+/// for character: RDF compares IRIs as strings), a relative reference is resolved (RDF/XML 5.3, RFC 3986 5.2)
+fn under_base(base: &str, i: &str) -> String { if has_scheme(i) { i.to_string() } else { rfc_resolve(base, i) } }
+const BASES: [&str; 3] = ["http://base.example/dir/file?q#f", "http://a/b/c/d;p?q", "file:///base/dir/"];
+
+const SCHEMES: [&str; 32] = ["http", "https", "urn", "tag", "mailto", "file", "a", "Z", "HTTP", "hTtP", "h2", "coap+tcp", "svn+ssh", "z39.50s", "view-source", "x-dt", "a1+b-c.d", "x.", "x-", "x+", "A-", "ni", "did", "jar", "ldap", "tel", "news", "xmlns", "xml", "rdf", "git+https", "ms-settings"];
+const USERINFOS: [&str; 8] = ["u", "u:pw", "u:", ":", "a%40b", "\u{e9}", "a!$&'()*+,;=", ""];
+const HOSTS: [&str; 15] = ["h", "example.org", "EXAMPLE.org", "127.0.0.1", "[::1]", "[2001:db8::7]", "[::ffff:192.0.2.1]", "[v7.a:b]", "\u{e9}.example", "xn--bcher-kva.example", "h%41", "a!$&'()*+,;=b", "", "1.2.3", "a-b.c_d~e"];
+const PORTS: [&str; 6] = ["", ":", ":80", ":8080", ":0", ":65536"];
+const ABS_PATHS: [&str; 34] = ["", "/", "/a", "/a/b", "/a/", "/a/b.c", "/a%20b", "/%C3%A9", "/%e9", "/\u{e9}", "/\u{65e5}\u{672c}", "/\u{1F600}", "/a:b", "/a@b", "/a;p=1", "/a,b", "/a!$&'()*+,;=b", "/~u", "/-", "/.a", "/a.", "/a//b", "//", "/./a", "/a/../b", "/a/.", "/a/..", "/..", "/.", "/a/./b/../c", "/1", "/_", "/a_b-c.d", "/ns/name"];
+const ROOTLESS: [&str; 16] = ["a", "a:b", "a:b:c", "x@y", "a/b", "a/b/", "1", "uuid:6e8bc430-9c3a-11d9-9669-0800200c9a66", "example.org,2024:x", "+1-816-555-1212", "a%20b", "\u{e9}", "a;b=c", "isbn:0451450523", "int", "a/../b"];
+const QUERIES: [&str; 12] = ["", "q", "a=1&b=2", "a=1&b='2'", "/?", "a/b", "%3F", "\u{e9}", "\u{E000}", "\u{F0000}", "q:@!$()*+,;=", "objectClass?one"];
+const FRAGS: [&str; 10] = ["", "f", "a/b?c", "\u{e9}", "%23", "x:y@z", "!$&'()*+,;=", "1", "-a", "name"];
+/// path-noscheme (first segment non-empty, without ':'), with and without dot segments
+const REL_PATHS: [&str; 28] = ["a", "a.b", ".", "..", "./a", "../a", "../../a", "../..", "./", "../", "a/b", "a/./b", "a/../b", "a/b:c", "./a:b", "1", "-a", "*", "a@b", "\u{e9}", "%41", "a;x=1", "..a", "a..", ".a", "...", "../../../../a", "a/"];
+/// dot-free paths for network-path references ("//authority path")
+const NET_PATHS: [&str; 8] = ["", "/", "/a", "/a/b", "/a/", "/\u{e9}", "/a%20b", "/a:b@c"];
+fn gen_scheme(r: &mut Rng) -> String {
+    if r.chance(3, 4) { return r.ps(&SCHEMES).to_string(); }
+    const SC: &[u8] = b"abzABZ019+-."; let mut s = String::new(); s.push(*r.pick(&SC[..6]) as char); for _ in 0..r.below(6) { s.push(*r.pick(SC) as char); } s
+}
+fn gen_authority(r: &mut Rng) -> String {
+    let mut a = String::new();
+    if r.chance(1, 3) { a.push_str(r.ps(&USERINFOS)); a.push('@'); }
+    a.push_str(r.ps(&HOSTS)); if r.chance(1, 3) { a.push_str(r.ps(&PORTS)); }
+    a
+}
+fn gen_abs_parts(r: &mut Rng) -> Parts {
+    let scheme = Some(gen_scheme(r));
+    let (auth, path) = match r.below(10) {
+        0..=5 => (Some(gen_authority(r)), r.ps(&ABS_PATHS).to_string()),
+        6 | 7 => (None, r.ps(&ROOTLESS).to_string()),
+        8 => (None, loop { let p = r.ps(&ABS_PATHS); if !p.starts_with("//") && !p.is_empty() { break p.to_string(); } }),
+        _ => (None, String::new()),
+    };
+    Parts { scheme, auth, path, query: if r.chance(1, 3) { Some(r.ps(&QUERIES).to_string()) } else { None }, frag: if r.chance(1, 3) { Some(r.ps(&FRAGS).to_string()) } else { None } }
+}
+fn gen_rel_parts(r: &mut Rng) -> Parts {
+    let (auth, path) = match r.below(8) {
+        0 => (Some(gen_authority(r)), r.ps(&NET_PATHS).to_string()),
+        1 | 2 => (None, loop { let p = r.ps(&ABS_PATHS); if !p.starts_with("//") && !p.is_empty() { break p.to_string(); } }),
+        3..=5 => (None, r.ps(&REL_PATHS).to_string()),
+        _ => (None, String::new()),
+    };
+    Parts { scheme: None, auth, path, query: if r.chance(1, 3) { Some(r.ps(&QUERIES).to_string()) } else { None }, frag: if r.chance(1, 3) { Some(r.ps(&FRAGS).to_string()) } else { None } }
+}
+/// the catalogues every run goes through (directed stream): IRIs, then relative references
+const ABS_SHAPES: [&str; 70] = ["coap+tcp://example.org/sensors/temp", "svn+ssh://u@h/repo/trunk", "z39.50s://h/db", "view-source:http://e/ns#p", "x-dt:int", "a:b", "Z:b", "HTTP://E/X", "hTtP://e/x", "h2:x", "a1+b-c.d:x", "x.:y", "x-:y", "x+:y",
+    "urn:a:b", "urn:uuid:6e8bc430-9c3a-11d9-9669-0800200c9a66", "urn:oasis:names:specification:docbook:dtd:xml:4.1.2", "mailto:x@y", "mailto:a.b@example.org?subject=hi%20there", "tag:example.org,2024:x", "news:comp.infosystems.www.servers.unix", "tel:+1-816-555-1212",
+    "did:example:123456789abcdefghi", "ni:///sha-256;UyaQV-Ev4rdLoHyJJWCi11OHfrYv9E1aGQAlMO2X_-Q", "jar:file:///a.jar!/b", "file:///x", "file:///c:/dir/f.txt", "x:/a/b", "x:", "x:?q", "x:#f", "x:a/../b",
+    "http://h", "http://h/", "http://h?q", "http://h#f", "http://h/?q#f", "http://u@h/p", "http://u:pw@h:8080/p", "http://@h/p", "http://h:80/p", "http://h:/p", "http://h:80", "http://[::1]/p", "http://[::1]", "http://[2001:db8::7]:8080/p?q#f", "http://[v7.a:b]/p", "http://127.0.0.1/p",
+    "ldap://[2001:db8::7]/c=GB?objectClass?one", "telnet://192.0.2.16:80/", "http://h/a%20b/%C3%A9", "http://h/%7Euser", "http://\u{e9}.example/\u{fc}/\u{f1}", "http://h/\u{65e5}\u{672c}\u{8a9e}#\u{65ad}\u{7247}", "http://h/\u{1F600}?\u{1F600}#\u{1F600}", "http://h/p?\u{E000}",
+    "http://h/a/./b/../c", "http://h/..", "http://h/a//b", "http://h//", "http://h/a;p=1,2", "http://h/a!$&'()*+,;=:@b", "http://a!$&'()*+,;=b/p", "http://h/p?a=1&b='2'&c=/?", "http://h/p#a/b?c", "http://h/p?#", "http://h/p#", "http://h/p?", "git+https://h/r.git", "ms-settings:display"];
+const REL_SHAPES: [&str; 40] = ["", "#", "#f", "?q", "?", "?q#f", "p", "p/q", "./p", "../p", "../../p", "../../../../p", "/p", "/", "/p/../q", "//h/p", "//h", "//u@h:80/p?q#f", "//[::1]/p", ".", "..", "./", "../", "p?q#f", "p#f", "\u{e9}", "%41", "a/b:c", "./a:b", "p;x=1", "1a", "-a", "*", "a@b", "g?y/./x", "g#s/../x", "..g", "g.", ".g", "a/./b/../c"];
+/// a predicate made from an IRI shape: the same IRI when it already ends with an XML local name, else with the
+/// shortest addition (in its last component) that gives it one
+fn predify(i: &str) -> String {
+    if !ncname_suffix(i).is_empty() { return i.to_string(); }
+    let mut p = split_ref(i);
+    if let Some(f) = &mut p.frag { f.push('k'); } else if let Some(q) = &mut p.query { q.push('k'); } else if !p.path.is_empty() { p.path.push('k'); } else if p.auth.is_some() { p.path = "/k".into(); } else { p.path = "k".into(); }
+    p.text()
+}
+/// what Rio's formatter needs to write a property element: a character that can not be in a local name (or ':')
+/// followed somewhere by one that can start it
+fn splittable(p: &str) -> bool { p.char_indices().rev().find(|(_, c)| !is_name_char(*c) || *c == ':').is_some_and(|(i, _)| p[i..].chars().any(|c| is_name_start(c) && c != ':')) }
+/// an IRI (or relative reference) of a random shape that sophia's own IriRef accepts (an assumption of the property)
+fn gen_shape(r: &mut Rng, relative: bool, rejected: &mut u64) -> String {
+    loop {
+        let p = if relative { gen_rel_parts(r) } else { gen_abs_parts(r) }; let s = p.text();
+        assert!(split_ref(&s) == p && has_scheme(&s) != relative, "harness: {s:?} does not split into the components it was built from ({p:?})");
+        if sophia_iri::IriRef::new(s.as_str()).is_ok() { return s; }
+        *rejected += 1;
+    }
+}
+/// the directed stream: the first cases of every run go through the two catalogues, two shapes per case, each shape as
+/// subject, as predicate (see predify), as object and as datatype
+fn shape_triples(x: &str, subj: &str, out: &mut Vec<T3>) {
+    if sophia_iri::IriRef::new(x).is_err() { return; }   // (counted once, in main)
+    let (s0, p0, p1) = (iri(subj), iri("http://e/p"), iri("http://e/q")); let xs = format!("{XSD}string");
+    out.push([iri(x), p0.clone(), lit_dt("as subject", &xs)]);
+    let p = predify(x); if has_scheme(x) || splittable(&p) { out.push([s0.clone(), iri(&p), lit_dt("as predicate", &xs)]); }
+    out.push([s0.clone(), p0, iri(x)]);
+    out.push([s0, p1, lit_dt("1", x)]);
+}
+fn directed_case(idx: usize) -> Option<(Flavour, Vec<T3>)> {
+    let (na, nr) = (ABS_SHAPES.len() / 2, REL_SHAPES.len() / 2);
+    let (fl, a, b) = if idx < na { (Flavour::IriShapes, ABS_SHAPES[2 * idx], ABS_SHAPES[2 * idx + 1]) } else if idx < na + nr { let j = idx - na; (Flavour::Relative, REL_SHAPES[2 * j], REL_SHAPES[2 * j + 1]) } else { return None };
+    let mut g = vec![]; shape_triples(a, "http://e/s", &mut g); shape_triples(b, "http://e/t", &mut g); Some((fl, g))
+}
+fn shape_tags(i: &str) -> Vec<&'static str> {
+    let p = split_ref(i); let mut t = vec![];
+    match &p.scheme { None => t.push("relative-reference"), Some(s) => { let mut plain = true;
+        if s.len() == 1 { t.push("scheme:one-letter"); plain = false; } if s.contains(['+', '-', '.']) { t.push("scheme:with + - ."); plain = false; }
+        if s.chars().any(|c| c.is_ascii_digit()) { t.push("scheme:with digit"); plain = false; } if s.chars().any(|c| c.is_ascii_uppercase()) { t.push("scheme:upper case"); plain = false; }
+        if plain { t.push("scheme:lower-case letters"); } } }
+    match &p.auth { None => t.push("authority:none"), Some(a) if a.is_empty() => t.push("authority:empty"), Some(a) => {
+        let host = match a.rsplit_once('@') { Some((_, h)) => { t.push("authority:userinfo"); h } None => a.as_str() };
+        if host.starts_with('[') { t.push("authority:ip-literal"); if host.contains("]:") { t.push("authority:port"); } } else { if host.contains(':') { t.push("authority:port"); } t.push("authority:name"); } } }
+    if p.path.is_empty() { t.push("path:empty"); } else { t.push(if p.path.starts_with('/') { "path:absolute" } else { "path:rootless" }); if p.path.split('/').any(|x| x == "." || x == "..") { t.push("path:dot-segments"); } }
+    if p.query.is_some() { t.push("query"); } if p.frag.is_some() { t.push("fragment"); }
+    if !i.is_ascii() { t.push("non-ascii"); } if i.contains('%') { t.push("pct-encoded"); }
+    t
+}
+fn iris_of(g: &[T3]) -> Vec<String> {
+    fn go(t: &ST, out: &mut Vec<String>) { match t { SimpleTerm::Iri(i) => out.push(i.as_str().to_string()), SimpleTerm::LiteralDatatype(_, d) => out.push(d.as_str().to_string()), SimpleTerm::Triple(q) => for x in q.iter() { go(x, out) }, _ => {} } }
+    let mut out = vec![]; for t in g { for x in t { go(x, &mut out); } } out
+}
+/// does some rdf:about / rdf:resource / rdf:datatype of the triples hold a relative reference (a reader needs a base)?
+fn needs_base(expected: &[T3]) -> bool {
+    expected.iter().any(|t| matches!(&t[0], SimpleTerm::Iri(i) if !has_scheme(i.as_str())) || matches!(&t[2], SimpleTerm::Iri(i) if !has_scheme(i.as_str()))
+        || matches!(&t[2], SimpleTerm::LiteralDatatype(_, d) if !has_scheme(d.as_str())))
+}
+/// the triples a reader with base `base` must return for `expected` (the predicate is an element name: never resolved)
+fn expected_under(base: &str, expected: &[T3]) -> Vec<T3> {
+    let n = |t: &ST| -> ST { match t { SimpleTerm::Iri(i) => iri(&under_base(base, i.as_str())), SimpleTerm::LiteralDatatype(l, d) => lit_dt(l, &under_base(base, d.as_str())), x => x.clone() } };
+    expected.iter().map(|t| [n(&t[0]), t[1].clone(), n(&t[2])]).collect()
+}
+fn rio_read_base(doc: &str, base: &str) -> Result<Vec<T3>, String> {
+    match quiet(|| { let r: Result<Vec<T3>, _> = RdfXmlParser { base: Some(Iri::new_unchecked(base.to_string())) }.parse_str(doc).collect_triples(); r.map_err(|e| e.to_string()) }) { Ok(r) => r, Err(_) => Err("PANIC".into()) }
+}
+
 /// the triples RDF/XML can express, and whether the graph is in the class where success without loss is promised
+/// (an RDF graph: every IRI is absolute; relative references are generalized input)
 fn classify(fed: &[T3]) -> (Vec<T3>, bool) {
     let expected: Vec<T3> = fed.iter().filter(|t| representable(t)).cloned().collect();
     let quoted = fed.iter().any(has_quoted);
     let text_legal = expected.iter().all(|t| lex_of(&t[2]).map_or(true, |l| l.chars().all(is_xml_char)));
     let preds_ok = expected.iter().all(|t| { let p = t[1].iri().unwrap(); let p = p.as_str(); !ncname_suffix(p).is_empty() && !RESERVED.iter().any(|l| p == format!("{RDF}{l}")) });
-    (expected, !quoted && text_legal && preds_ok)
+    let all_abs = iris_of(&expected).iter().all(|i| has_scheme(i));
+    (expected, !quoted && text_legal && preds_ok && all_abs)
 }
 type Parses = (Result<Vec<T3>, String>, Result<Vec<T3>, String>);
 fn parses<'a>(cache: &'a mut HashMap<String, Parses>, d: &str) -> &'a Parses { if !cache.contains_key(d) { cache.insert(d.to_string(), (rio_read(d), ref_read(d))); } &cache[d] }
+/// the reader WITH a base on a document whose rdf:about / rdf:resource / rdf:datatype hold relative references
+fn base_finding(d: &str, base: &str, expected: &[T3], known_ws: Option<&[T3]>, bad_tag: bool) -> Option<(&'static str, String)> {
+    let want = expected_under(base, expected);
+    match rio_read_base(d, base) {
+        Err(e) => if bad_tag { None } else { Some(("rio-base-rejects", format!("RdfXmlParser with base <{base}> rejects the serialiser's output: {e}; document {d:?}"))) },
+        Ok(back) => if iso(&want, &back) || known_ws.is_some_and(|w| iso(&expected_under(base, w), &back)) { None } else { Some(("rio-base-differs", format!("RdfXmlParser with base <{base}> reads back a different graph: read {back:?}, expected {want:?}; document {d:?}"))) },
+    }
+}
 /// the round-trip oracle on one outcome: (kind of finding, detail).
 /// `known` = apply the three recorded third-party deviations EXACTLY instead of reporting them again (they are reported,
 /// under their own heads, by the baseline run of the flavours that contain them): rio_xml's reader returns "" for a
 /// whitespace-only literal and rejects tags that are not BCP47; a conformant XML reader turns CR / CR LF into LF.
-fn judge(out: &Ser, fed: &[T3], known: bool, cache: &mut HashMap<String, Parses>) -> Vec<(&'static str, String)> {
+fn judge(out: &Ser, fed: &[T3], known: bool, base: &str, cache: &mut HashMap<String, Parses>) -> Vec<(&'static str, String)> {
     let (expected, in_class) = classify(fed); let mut f = vec![];
     let relit = |t: &T3, h: &dyn Fn(&str) -> String| -> T3 { let o = match &t[2] { SimpleTerm::LiteralDatatype(l, d) => lit_dt(&h(l), d.as_str()), SimpleTerm::LiteralLanguage(l, tag) => lit_lang(&h(l), tag.as_str()), x => x.clone() }; [t[0].clone(), t[1].clone(), o] };
     let exp_ws: Vec<T3> = expected.iter().map(|t| relit(t, &|l| if l.chars().all(is_xml_ws) { String::new() } else { l.to_string() })).collect();
@@ -596,8 +789,11 @@ fn judge(out: &Ser, fed: &[T3], known: bool, cache: &mut HashMap<String, Parses>
         Ser::Doc(d) => { let (pr, rr) = parses(cache, d);
             match rr { Err(e) => f.push(("not-xml", format!("the document is not a well-formed namespace-conformant RDF/XML document: reference reader: {e}; document {d:?}"))),
                 Ok(back) => if !iso(&expected, back) && !(known && iso(&exp_cr, back)) { f.push(("ref-differs", format!("the document does not denote the graph (reference XML reader): read {back:?}, expected {expected:?}; document {d:?}"))); } }
-            match pr { Err(e) => if !(known && bad_tag) { f.push(("rio-rejects", format!("RdfXmlParser rejects the serialiser's output: {e}; document {d:?}"))) },
-                Ok(back) => if !iso(&expected, back) && !(known && iso(&exp_ws, back)) { f.push(("rio-differs", format!("RdfXmlParser reads back a different graph: read {back:?}, expected {expected:?}; document {d:?}"))); } } }
+            let nb = needs_base(&expected);
+            match pr { Err(e) => if !(known && bad_tag) && !nb { f.push(("rio-rejects", format!("RdfXmlParser rejects the serialiser's output: {e}; document {d:?}"))) },
+                Ok(back) => if !iso(&expected, back) && !(known && iso(&exp_ws, back)) { f.push(("rio-differs", format!("RdfXmlParser reads back a different graph: read {back:?}, expected {expected:?}; document {d:?}"))); } }
+            // relative references: the document must read back under a base
+            if nb { if let Some(x) = base_finding(d, base, &expected, if known { Some(&exp_ws) } else { None }, known && bad_tag) { f.push(x); } } }
     }
     f
 }
@@ -616,6 +812,8 @@ fn main() {
 of one flavour: clean, or exactly one kind of input outside a class (whitespace-only literal, blank node label starting with a digit, reserved rdf: name as predicate, predicate without NCName suffix, non-XML character, CR, non-BCP47 tag, generalised triple, quoted triple), serialised with every indentation 0..8 (and one of 9..64) through serialize_triples(vec.triples()) on a stringifier, and -- at indentation 0 and two random ones -- through EVERY other public entry point: \
 serialize_triples on 17 kinds of source (iterators, adapters, slice, set containers, in-memory graphs, Rio triples in Trusted, the RDF/XML parser, dataset quads), serialize_graph on 16 kinds of graph (Vec, references, slice, HashSet, BTreeSet, FastGraph, LightGraph, dataset views: graph(name), union, partial union, as_dataset), \
 every way of building the config / serializer, 7 kinds of writer (short writes, interruptions, buffered), a writer with a byte limit, four calls on one serializer, chaining; each judged by the same round-trip oracle and compared with the baseline; the parser driven in 14 ways on every document; \
+(A', directed, the first 55 cases of every run) the catalogue of 70 IRIs of every RFC 3986/3987 shape (schemes with + - . digits, upper case, one letter; no authority, empty authority, userinfo, port, empty port, IPv6 / IPvFuture literal; empty, rootless, absolute paths, dot segments, percent escapes, non-ASCII; query only, fragment only) and of 40 relative references of every kind, two per case, each as subject, predicate, object and datatype, through the same machinery as A; \
+the flavours IriShapes (3 of 25 graphs of A: two thirds of the IRIs of every position built from random components) and Relative (2 of 25: one to three relative references in addition -- generalized input: the serializer may refuse, else the document must read back verbatim through the reference reader and, under a base, resolved per RFC 3986 5.2); \
 (B, 1 of 6) a raw element text and a raw attribute value (references, stray ampersands, CR/LF/TAB, non-XML characters) fed to the real parser and to the reference reader; \
 non-trivial = A: at least one representable triple and (a literal with a character that needs escaping or whitespace at an end, or a predicate not ending in a plain ASCII name after '/' or '#'), B: the raw string contains '&' or whitespace; distinct = distinct inputs".into();
     // Which serializer is under test?  The proposed repair (build/proposed/C18.diff) refuses text outside XML's Char
@@ -630,7 +828,8 @@ non-trivial = A: at least one representable triple and (a literal with a charact
     for idx in range {
         let mut r = base.fork(idx as u64);
         sum.evaluations += 1;
-        if r.chance(1, 6) {
+        let directed = directed_case(idx);
+        if directed.is_none() && r.chance(1, 6) {
             // ---------------- stream B: the readers on raw text / attribute values ----------------
             const RP: [&str; 34] = ["&", "&", ";", "#", "#x", "lt", "gt", "amp", "apos", "quot", "&lt;", "&gt;", "&amp;", "&apos;", "&quot;", "&#32;", "&#x20;", "&#10;", "&#13;", "&#9;", "&#x1F600;", "&#0;", "&#1;", "&#xD800;", "&#x110000;", "&#65534;",
                 "a", "1", " ", "\n", "\r", "\t", "\u{e9}", "\u{1}"];
@@ -654,22 +853,31 @@ non-trivial = A: at least one representable triple and (a literal with a charact
             continue;
         }
         // ---------------- stream A: graphs ----------------
-        let flavour = match r.below(20) { 0..=10 => Flavour::Clean, 11 => Flavour::WsOnly, 12 => Flavour::BnodeDigit, 13 => Flavour::ReservedPred, 14 => Flavour::NoSplitPred, 15 => Flavour::IllegalChar, 16 => Flavour::Cr, 17 => Flavour::BadLang, 18 => Flavour::Generalised, _ => Flavour::Quoted };
-        let n = if r.chance(1, 25) { 0 } else { r.range(1, 5) };
-        let mut g: Vec<T3> = vec![];
+        let flavour = match &directed { Some((f, _)) => *f, None => match r.below(25) { 0..=10 => Flavour::Clean, 11 => Flavour::WsOnly, 12 => Flavour::BnodeDigit, 13 => Flavour::ReservedPred, 14 => Flavour::NoSplitPred, 15 => Flavour::IllegalChar, 16 => Flavour::Cr, 17 => Flavour::BadLang, 18 => Flavour::Generalised, 19 => Flavour::Quoted, 20..=22 => Flavour::IriShapes, _ => Flavour::Relative } };
+        let shapes = matches!(flavour, Flavour::IriShapes | Flavour::Relative);
+        let base_iri: &str = BASES[idx % BASES.len()];
+        let mut rejected = 0u64;
+        let n = if directed.is_some() { 0 } else if r.chance(1, 25) { 0 } else { r.range(1, 5) };
+        let mut g: Vec<T3> = match &directed { Some((_, g)) => g.clone(), None => vec![] };
         let mut prev_s: Option<ST> = None;
         for _ in 0..n {
-            let s = match &prev_s { Some(p) if r.chance(1, 2) => p.clone(), _ => gen_node(&mut r) };
+            // the flavours IriShapes / Relative draw two thirds of the IRIs of every position from the shape generator
+            let s = match &prev_s { Some(p) if r.chance(1, 2) => p.clone(), _ => if shapes && r.chance(2, 3) { iri(&gen_shape(&mut r, false, &mut rejected)) } else { gen_node(&mut r) } };
             prev_s = Some(s.clone());
-            g.push([s, iri(&gen_pred(&mut r)), gen_obj(&mut r)]);
+            let p = if shapes && r.chance(2, 3) { let x = gen_shape(&mut r, false, &mut rejected); iri(&if r.chance(7, 8) { predify(&x) } else { x }) } else { iri(&gen_pred(&mut r)) };
+            let o = if shapes && r.chance(2, 3) { if r.chance(1, 2) { iri(&gen_shape(&mut r, false, &mut rejected)) } else { let t = gen_text(&mut r); lit_dt(&t, &gen_shape(&mut r, false, &mut rejected)) } } else { gen_obj(&mut r) };
+            g.push([s, p, o]);
         }
-        if r.chance(1, 12) && !g.is_empty() { let d = g[r.below(g.len())].clone(); g.push(d); } // duplicate triple
+        if directed.is_none() && r.chance(1, 12) && !g.is_empty() { let d = g[r.below(g.len())].clone(); g.push(d); } // duplicate triple
         // inject the flavour's single out-of-class ingredient
         let k = if g.is_empty() { 0 } else { r.below(g.len()) };
         let some_s = iri("http://e/s"); let some_p = iri("http://e/p");
         if g.is_empty() && flavour != Flavour::Clean { g.push([some_s.clone(), some_p.clone(), some_s.clone()]); }
         match flavour {
-            Flavour::Clean => {}
+            Flavour::Clean | Flavour::IriShapes => {}
+            // relative references (generalized input) in one to three places: subject, object, datatype, predicate
+            Flavour::Relative => if directed.is_none() { for _ in 0..r.range(1, 3) { let k = r.below(g.len()); let x = gen_shape(&mut r, true, &mut rejected);
+                match r.below(7) { 0 | 1 => g[k][0] = iri(&x), 2 | 3 => g[k][2] = iri(&x), 4 | 5 => { let t = gen_text(&mut r); g[k][2] = lit_dt(&t, &x) } _ => g[k][1] = iri(&predify(&x)) } } }
             Flavour::WsOnly => { let mut w = String::new(); for _ in 0..r.range(1, 3) { w.push_str(r.ps(&WS)); } g[k][2] = if r.chance(1, 3) { lit_lang(&w, "en") } else if r.chance(1, 2) { lit_dt(&w, r.ps(&DATATYPES)) } else { lit_dt(&w, &format!("{XSD}string")) }; }
             Flavour::BnodeDigit => { let l = r.ps(&BAD_BNODES); let b = bnode(l); if r.chance(1, 2) { g[k][0] = b } else { g[k][2] = b }
                 // the label a renaming scheme would choose for it (underscore prefix) is present as well: they must stay two nodes
@@ -687,8 +895,10 @@ non-trivial = A: at least one representable triple and (a literal with a charact
         let quoted = g.iter().any(has_quoted);
         let text_legal = expected.iter().all(|t| lex_of(&t[2]).map_or(true, |l| l.chars().all(is_xml_char)));
         let preds_ok = expected.iter().all(|t| { let p = t[1].iri().unwrap(); let p = p.as_str(); !ncname_suffix(p).is_empty() && !RESERVED.iter().any(|l| p == format!("{RDF}{l}")) });
-        let in_class = !quoted && text_legal && preds_ok;
-        let what = format!("flavour {flavour:?}, graph {g:?}");
+        let all_abs = iris_of(&expected).iter().all(|i| has_scheme(i));   // an RDF graph; relative references are generalized input
+        let in_class = !quoted && text_legal && preds_ok && all_abs;
+        let nb = needs_base(&expected);
+        let what = if shapes { format!("flavour {flavour:?}{}, graph {g:?}", if directed.is_some() { " (directed: the catalogue of IRI shapes)" } else { "" }) } else { format!("flavour {flavour:?}, graph {g:?}") };
         let describe = |k: &str, detail: String| -> String {
             let head = match flavour {
                 Flavour::WsOnly => "RDF/XML whitespace-only literal", Flavour::BnodeDigit => "RDF/XML blank node label that is not an NCName",
@@ -701,9 +911,11 @@ non-trivial = A: at least one representable triple and (a literal with a charact
         // run every indentation
         let mut fails: Vec<String> = vec![];
         let mut runs: Vec<(Ser, Option<Result<Vec<T3>, String>>, Option<Result<Vec<T3>, String>>)> = vec![];
+        let mut base_runs: Vec<Option<Result<Vec<T3>, String>>> = vec![];   // the reader WITH a base, when some rdf:about / rdf:resource / rdf:datatype is a relative reference
         for ind in 0..=8usize {
             let s = serialize(&g, ind);
             let (pr, rr) = match &s { Ser::Doc(d) => (Some(rio_read(d)), Some(ref_read(d))), _ => (None, None) };
+            base_runs.push(match &s { Ser::Doc(d) if nb => Some(rio_read_base(d, base_iri)), _ => None });
             runs.push((s, pr, rr));
         }
         for (ind, (s, pr, rr)) in runs.iter().enumerate() {
@@ -716,9 +928,15 @@ non-trivial = A: at least one representable triple and (a literal with a charact
                         Ok(back) => if !iso(&expected, back) { fails.push(describe("the document does not denote the graph (reference XML reader)", format!("indentation {ind}: read {back:?}, expected {expected:?}; document {d:?}"))); }
                     }
                     match pr.as_ref().unwrap() {
-                        Err(e) => fails.push(describe("RdfXmlParser rejects the serialiser's output", format!("indentation {ind}: {e}; document {d:?}"))),
+                        Err(e) => if !nb { fails.push(describe("RdfXmlParser rejects the serialiser's output", format!("indentation {ind}: {e}; document {d:?}"))) },
                         Ok(back) => if !iso(&expected, back) { fails.push(describe("RdfXmlParser reads back a different graph", format!("indentation {ind}: read {back:?}, expected {expected:?}; document {d:?}"))); }
                     }
+                    // a document with relative references must read back under a base: resolved per RFC 3986 5.2, IRIs untouched
+                    if let Some(pb) = &base_runs[ind] { let want = expected_under(base_iri, &expected);
+                        match pb { Err(e) => fails.push(describe("RdfXmlParser with a base rejects the serialiser's output", format!("indentation {ind}, base <{base_iri}>: {e}; document {d:?}"))),
+                            Ok(back) => if !iso(&want, back) { fails.push(describe("RdfXmlParser with a base reads back a different graph", format!("indentation {ind}, base <{base_iri}>: read {back:?}, expected {want:?}; document {d:?}"))); } }
+                        if let Some(Some(b0)) = base_runs.first() { let same = match (b0, pb) { (Ok(x), Ok(y)) => exact(x, y), (Err(_), Err(_)) => true, _ => false };
+                            if !same { fails.push(format!("RDF/XML indentation changes the parsed result (reader with base <{base_iri}>): indentation 0 gives {b0:?}, indentation {ind} gives {pb:?}; {what}")); } } }
                     // indentation must not change the outcome
                     if let (Ser::Doc(_), Some(p0)) = (&runs[0].0, &runs[0].1) {
                         let same = match (p0, pr.as_ref().unwrap()) { (Ok(x), Ok(y)) => x.len() == y.len() && x.iter().zip(y).all(|(u, v)| (0..3).all(|i| Term::eq(&u[i], &v[i]))), (Err(_), Err(_)) => true, _ => false };
@@ -785,14 +1003,14 @@ non-trivial = A: at least one representable triple and (a literal with a charact
             for run in all { n_runs += 1;
                 let Run { name, fed, out, .. } = run;
                 if exact(&fed, &g) { if !same_out(&out, base) { path_fails.push(format!("{name}, indentation {ind}, gives {} whereas serialize_triples(vec.triples()) on a stringifier gives {}", show(&out), show(base))); } continue; }
-                for (_, detail) in judge(&out, &fed, true, &mut cache) { path_fails.push(format!("{name}, indentation {ind}: {detail}; fed {fed:?}")); }
+                for (_, detail) in judge(&out, &fed, true, base_iri, &mut cache) { path_fails.push(format!("{name}, indentation {ind}: {detail}; fed {fed:?}")); }
                 if set_key(&fed) == gset && matches!(out, Ser::Doc(_)) != matches!(base, Ser::Doc(_)) { path_fails.push(format!("{name}, indentation {ind}, gives {} whereas serialize_triples(vec.triples()) gives {} for the same set of triples", show(&out), show(base))); }
                 let key = format!("{fed:?}");
                 match by_fed.get(&key) { Some((n0, o0)) => if !same_out(o0, &out) { path_fails.push(format!("{name}, indentation {ind}, gives {} whereas {n0} gives {} for the same sequence of triples {fed:?}", show(&out), show(o0))); }, None => { by_fed.insert(key, (name, out)); } }
             }
             for n in notes { path_fails.push(format!("indentation {ind}: {n}")); }
             // the parser, driven in every way, on the baseline document
-            if let (Ser::Doc(d), Some(pr)) = (&runs[ind].0, &runs[ind].1) { for f in parser_paths(d, pr, idx + ind) { path_fails.push(format!("parser entry points disagree on the document written with indentation {ind}: {f}; document {d:?}")); } }
+            if let (Ser::Doc(d), Some(pr)) = (&runs[ind].0, &runs[ind].1) { for f in parser_paths(d, pr, idx + ind, nb) { path_fails.push(format!("parser entry points disagree on the document written with indentation {ind}: {f}; document {d:?}")); } }
         }
         // an indentation beyond 8
         let kbig = 9 + rp.below(56); let big = serialize(&g, kbig);
@@ -834,8 +1052,11 @@ non-trivial = A: at least one representable triple and (a literal with a charact
             let obs = c_obs(s, with_doc);
             parts.push(format!("ser_ok {cg} {ind} g {obs}"));
             if let (Some(pr), Some(rr)) = (pr, rr) {
-                if rio_modelled { parts.push(c_obs_parse(false, ind, pr)); }
+                // IriShapes / Relative: the reader without a base also demands an IRI (RFC 3987 grammar, in Coq) wherever it resolves
+                if shapes { parts.push(match pr { Ok(b) if b.iter().map(c_t3).collect::<Vec<_>>() == std_parse => format!("nobase_std {cg} {ind} g"), _ => format!("nobase_ok {cg} {ind} g {}", c_parse(pr)) }); }
+                else if rio_modelled { parts.push(c_obs_parse(false, ind, pr)); }
                 parts.push(c_obs_parse(true, ind, rr));
+                if let Some(pb) = &base_runs[ind] { parts.push(format!("base_ok {cg} {ind} {} g {}", coq_str(base_iri), c_parse(pb))); }
             }
             // the other entry points: every distinct sequence of triples that was fed, against the model on THAT sequence;
             // when it lists the same set as g (set containers, views), the model also checks that it is such a listing
@@ -848,10 +1069,23 @@ non-trivial = A: at least one representable triple and (a literal with a charact
             for (i2, limit, ok) in &coq_limited { if *i2 == ind { parts.push(format!("limited_ok {cg} {ind} g {limit} {}", coq_bool(*ok))); } }
         }
         if idx % 4 == 0 { parts.push(format!("ser_ok {cg} {kbig} g {}", c_obs(&big, true))); }
+        if shapes {
+            // every IRI of the case against the RFC 3987 grammar: absolute or not, as the harness built it; the harness's
+            // RFC 3986 resolution of every relative reference against the specification of 5.2 in Coq
+            let all: BTreeSet<String> = iris_of(&g).into_iter().collect();
+            parts.push(format!("iris_ok {}", coq_list(all.iter().map(|i| format!("({}, {})", coq_str(i), coq_bool(has_scheme(i)))))));
+            let rel: Vec<&String> = all.iter().filter(|i| !has_scheme(i)).collect();
+            if !rel.is_empty() { parts.push(format!("resolved_ok {} {}", coq_str(base_iri), coq_list(rel.iter().map(|i| format!("({}, {})", coq_str(i), coq_str(&rfc_resolve(base_iri, i))))))); }
+            for i in &all { for t in shape_tags(i) { sum.bump(&format!("iri-shape:{t}")); } if sophia_iri::Iri::new(i.as_str()).is_ok() != has_scheme(i) { sum.bump("iri-shape:sophia_iri::Iri::new disagrees with the RFC 3986 scheme rule"); } }
+            sum.bump_by("iri-shape:generated but refused by sophia_iri::IriRef::new (not used)", rejected);
+            if nb { sum.bump("relative:needs-base"); }
+        }
         cases.push((idx, format!("let g := {} in {}", c_graph(&g), parts.join(" && "))));
     }
     if a.only.is_none() {
-        let header = "From Sophia.C18 Require Import Model Paths.\n";
+        let header = "From Sophia.C18 Require Import Model Paths Iris.\n";
+        let bad: Vec<&str> = ABS_SHAPES.iter().chain(REL_SHAPES.iter()).copied().filter(|x| sophia_iri::IriRef::new(*x).is_err()).collect();
+        sum.extra.push(("catalogue_shapes_refused_by_IriRef_new".into(), format!("{bad:?}")));
         sum.shards = write_shards(&a.out, header, &cases, a.shards);
         sum.extra.push(("coq_cases".into(), cases.len().to_string()));
         std::fs::write(format!("{}/summary.json", a.out), sum.to_json()).unwrap();
